@@ -26,7 +26,7 @@ REQUIRED = ["op.occupancy_at_time", "op.state_at_time", "op.occupancies_at_time_
             "op.export_xml", "op.export_pb", "state-without-orientation", "goal-lanelets.dict",
             "goal-lanelets.defaultdict", "default-constructed-obstacle", "fixture", "light-with-successors",
             "goal-check.scenario-state-with-vx-vy-orientation", "goal_reached.scenario-trajectory",
-            "uncertain-regions-under-off-centre-shape"]
+            "uncertain-regions-under-off-centre-shape", "registered-obstacles-on-a-lanelet-chain", "op.merge_queries"]
 ASSUMPTIONS = ["private caches are not compared (C11 covers them where observable)",
                "an exception raised by a read-only operation is not judged here (totality is C19 / C04 / C08 business)"]
 SHARDS = {"quick": 4, "thorough": 16}
@@ -35,7 +35,7 @@ OPS = ["occupancy_at_time", "state_at_time", "occupancies_at_time_step", "obstac
        "obstacles_by_role_and_type", "obstacles_by_position_intervals", "find_lanelet_by_position", "find_lanelet_by_shape",
        "contains_points", "map_obstacles_to_lanelets", "lanelet_geometry", "successors_in_range", "light_state",
        "is_reached", "goal_reached", "eq", "hash", "copy", "deepcopy", "pickle", "str", "draw", "export_xml", "export_pb",
-       "occupancy_set"]
+       "occupancy_set", "merge_queries"]
 
 
 class ArgChanged(Exception):
@@ -116,6 +116,14 @@ def run(ctx):
             la = rng.choice(net.lanelets)
             la.find_lanelet_successors_in_range(net, 30.0)
             la.find_lanelet_predecessors_in_range(net, 30.0)
+        elif op == "merge_queries":
+            # queries that return NEW merged lanelets built from a chain of successors / predecessors
+            from commonroad.scenario.lanelet import Lanelet as _La
+            first, last = net.find_lanelet_by_id(8001), net.find_lanelet_by_id(8003)
+            if first is not None and last is not None:
+                _La.all_lanelets_by_merging_successors_from_lanelet(first, net)
+                _La.all_lanelets_by_merging_predecessors_from_lanelet(last, net)
+                _La.merge_lanelets(first, net.find_lanelet_by_id(8002))
         elif op == "light_state":
             for tl in net.traffic_lights:
                 tl.get_state_at_time_step(t)
@@ -230,6 +238,22 @@ def run(ctx):
         sc.add_objects(DynamicObstacle(nid + 3, ObstacleType.CAR, shape, st.InitialState(
             time_step=0, position=np.array([9.0, 9.0]), orientation=1.0)))
         ctx.feature("default-constructed-obstacle")
+        # a chain of three consecutive lanelets with obstacles REGISTERED on the second and third one (the registries are
+        # part of what must not change)
+        from commonroad.scenario.lanelet import Lanelet as _La
+        base_y = 700.0
+        for k_, lid_ in enumerate((8001, 8002, 8003)):
+            r_ = np.array([[10.0 * k_, base_y], [10.0 * k_ + 5.0, base_y], [10.0 * k_ + 10.0, base_y]])
+            sc.add_objects(_La(r_ + np.array([0.0, 3.0]), r_ + np.array([0.0, 1.5]), r_, lid_,
+                               predecessor=[lid_ - 1] if k_ else [], successor=[lid_ + 1] if k_ < 2 else []))
+        sc.add_objects(StaticObstacle(nid + 6, ObstacleType.PARKED_VEHICLE, Rectangle(2.0, 1.0), st.InitialState(
+            time_step=0, position=np.array([15.0, base_y + 1.5]), orientation=0.0)))
+        sc.add_objects(DynamicObstacle(nid + 7, ObstacleType.CAR, Rectangle(2.0, 1.0), st.InitialState(
+            time_step=0, position=np.array([25.0, base_y + 1.5]), orientation=0.0), TrajectoryPrediction(Trajectory(1, [
+                st.KSState(time_step=1, position=np.array([26.0, base_y + 1.5]), orientation=0.0, velocity=1.0,
+                           steering_angle=0.0)]), Rectangle(2.0, 1.0))))
+        sc.assign_obstacles_to_lanelets(obstacle_ids={nid + 6, nid + 7})
+        ctx.feature("registered-obstacles-on-a-lanelet-chain")
         # uncertain positions of every region kind under an OFF-CENTRE obstacle shape (the region objects stored in the
         # states are what an occupancy computation must not write into)
         from commonroad.common.util import AngleInterval
